@@ -113,6 +113,8 @@ static const char *P_oracle = "all";
 static int P_ext_stop = -1; /* >= 0: an external thread calls RootsimStop() after that many of its own scheduling points */
 static const char *P_stats;
 static int P_negative = 0;
+static long P_stopprompt = 0; /* > 0: at most that many forward events may be dispatched (all ranks) after RootsimStop() was called */
+static long events_after_stop;
 static long P_prompt = 0; /* > 0: at most that many forward events may be dispatched after every thread was told a GVT at which all predicates hold on committed states */
 static long events_after_all_hold; /* the model is non-terminating by design: returning is the violation */
 
@@ -235,6 +237,9 @@ static void h_dispatch(lp_id_t me, simtime_t now, unsigned type, const void *pl,
 			    (unsigned long long)me, now, type, (unsigned long long)d, (unsigned long long)r->h_after);
 	} else {
 		rs_count(C_EVENTS, 1);
+		if(P_stopprompt && stop_called && ++events_after_stop > P_stopprompt)
+			rs_fail("C08 the run goes on although RootsimStop() was called: %ld forward events dispatched since (every worker leaves the "
+				"main loop at the latest one loop iteration after the termination message reached its rank)", events_after_stop);
 		if(P_prompt) {
 			int all = 1;
 			for(unsigned o = 0; o < global_config.n_threads; ++o)
@@ -1028,6 +1033,7 @@ static void configure(int argc, char **argv)
 	P_stats = rs_param("stats", NULL);
 	P_negative = (int)rs_param_int("neg", 0);
 	P_prompt = rs_param_int("prompt", 0);
+	P_stopprompt = rs_param_int("stopprompt", 0);
 }
 
 static const struct rs_harness H = {
